@@ -41,7 +41,7 @@ import (
 type ToolDef struct {
 	Name string `json:"name"`
 	Kind string `json:"kind"` // inv | str | both | none (a BaseTool that implements neither run interface)
-	Via  string `json:"via"`  // infer | new | raw | inferopt | raw2 | inferopt2 | inferjson | newum (raw/inferopt tools read the tag options, raw2/inferopt2 tools the options of the other implementation-specific type, the others none; inferjson: utils' default output marshalling, i.e. every output / chunk as a JSON string; newum: utils tool with a custom argument unmarshaller)
+	Via  string `json:"via"`  // infer | new | raw | inferopt | raw2 | inferopt2 | inferjson | newum | inferptr | newptr | newmap (inferptr/newptr: utils tool whose argument type is a pointer to a struct, newmap: a map; raw/inferopt tools read the tag options, raw2/inferopt2 tools the options of the other implementation-specific type, the others none; inferjson: utils' default output marshalling, i.e. every output / chunk as a JSON string; newum: utils tool with a custom argument unmarshaller)
 	// its Info call fails
 	InfoErr bool `json:"info_err,omitempty"`
 }
@@ -84,13 +84,30 @@ type Behav struct {
 	Cap        int      `json:"cap,omitempty"`         // -1 = array-backed stream, otherwise Pipe capacity
 	Bare       bool     `json:"bare,omitempty"`        // output = join(chunks), no "<tag><name>:" prefix (the tool can answer "")
 	Depth      int      `json:"depth,omitempty"`       // a panicking tool panics this many frames below its entry point
+	Ctx        bool     `json:"ctx,omitempty"`         // the tool honours its context: while it is delayed it returns ctx.Err() as soon as the context is done
+}
+
+// the behaviour on arguments that carry the optional field s: s is appended to the output (to its last chunk)
+func (b Behav) with(s string) Behav {
+	if s == "" || len(b.Chunks) == 0 {
+		return b
+	}
+	cs := append([]string{}, b.Chunks...)
+	cs[len(cs)-1] += s
+	b.Chunks = cs
+	return b
 }
 
 type Call struct {
 	ID   string `json:"id"`
 	Name string `json:"name"`
 	K    int    `json:"k"` // arguments are {"k":K}; K indexes the behaviour table; -1 = malformed arguments
+	// an optional second argument field: arguments {"k":K,"s":S}; the tool appends S to its output (to the
+	// last chunk of a streamed output); "" = the field is left out of the arguments
+	S string `json:"s,omitempty"`
 }
+
+func (cl Call) args() string { return argsOf(cl.K, cl.S) }
 
 type Case struct {
 	Tools   []ToolDef `json:"tools"`
@@ -107,6 +124,38 @@ type Case struct {
 	// WithToolsNodeOption carrying all, "split" = one per node option, "designated" = one per node
 	// option, each designated to the tools node, "mixed" = alternately designated or not
 	GraphOpts string `json:"graph_opts,omitempty"`
+	// graph-hosted runs through the stream-input entries (Collect, Transform): how the assistant message
+	// arrives as a stream: 0 = these entries are not exercised, 1 = one chunk, 2 = the calls dealt out over two
+	// chunks (even positions, odd positions), 3 = every call's arguments cut in two (id and name in the first chunk)
+	InputSplit int `json:"input_split,omitempty"`
+}
+
+// the assistant message as the chunks of a model's output stream (they concatenate to c.message())
+func (c *Case) messageChunks() []*schema.Message {
+	m := c.message()
+	if c.InputSplit <= 1 {
+		return []*schema.Message{m}
+	}
+	a := &schema.Message{Role: m.Role}
+	b := &schema.Message{Role: m.Role}
+	for i, tc := range m.ToolCalls {
+		switch {
+		case c.InputSplit == 2 && i%2 == 0:
+			a.ToolCalls = append(a.ToolCalls, tc)
+		case c.InputSplit == 2:
+			b.ToolCalls = append(b.ToolCalls, tc)
+		default:
+			args := tc.Function.Arguments
+			cut := len(args) / 2
+			first, second := tc, tc
+			first.Function.Arguments = args[:cut]
+			second.ID, second.Type = "", ""
+			second.Function = schema.FunctionCall{Arguments: args[cut:]}
+			a.ToolCalls = append(a.ToolCalls, first)
+			b.ToolCalls = append(b.ToolCalls, second)
+		}
+	}
+	return []*schema.Message{a, b}
 }
 
 // one ToolsNodeOption
@@ -243,9 +292,12 @@ func (c *Case) graphOptions(nopts []compose.ToolsNodeOption) []compose.Option {
 }
 
 // K = -1: arguments that no tool of the harness can parse (the tool fails before its body runs)
-func argsOf(k int) string {
+func argsOf(k int, s string) string {
 	if k < 0 {
 		return `{"k":"x"}`
+	}
+	if s != "" {
+		return fmt.Sprintf(`{"k":%d,"s":%s}`, k, quote(s))
 	}
 	return fmt.Sprintf(`{"k":%d}`, k)
 }
@@ -310,6 +362,24 @@ func sleepUS(us int) {
 	}
 }
 
+// the delay of a tool that honours its context (the usual shape of a tool that waits for something)
+func sleepCtx(ctx context.Context, us int, honour bool) error {
+	if !honour {
+		sleepUS(us)
+		return nil
+	}
+	if us > 0 {
+		t := time.NewTimer(time.Duration(us) * time.Microsecond)
+		defer t.Stop()
+		select {
+		case <-t.C:
+		case <-ctx.Done():
+			return ctx.Err()
+		}
+	}
+	return ctx.Err()
+}
+
 func (rc *recorder) behav(k int) (Behav, bool) {
 	if k < 0 || k >= len(rc.c.Behavs) {
 		return Behav{}, false
@@ -342,15 +412,18 @@ func panicAt(depth int, v any) int {
 	return panicAt(depth-1, v) + 1
 }
 
-func (rc *recorder) invoke(ctx context.Context, name string, k int, tag string) (string, error) {
+func (rc *recorder) invoke(ctx context.Context, name string, k int, s string, tag string) (string, error) {
 	rc = rc.pick(ctx)
-	x := rc.begin(ctx, name, argsOf(k), tag)
+	x := rc.begin(ctx, name, argsOf(k, s), tag)
 	defer rc.done(x)
 	b, ok := rc.behav(k)
 	if !ok {
 		return "", &toolErr{7}
 	}
-	sleepUS(b.Delay)
+	b = b.with(s)
+	if err := sleepCtx(ctx, b.Delay, b.Ctx); err != nil {
+		return "", err
+	}
 	if b.Panic {
 		panicAt(b.Depth, toolPanic{k})
 	}
@@ -368,15 +441,18 @@ func prefixFirst(name string, cs []string) []string {
 	return out
 }
 
-func (rc *recorder) stream(ctx context.Context, name string, k int, tag string) (*schema.StreamReader[string], error) {
+func (rc *recorder) stream(ctx context.Context, name string, k int, s string, tag string) (*schema.StreamReader[string], error) {
 	rc = rc.pick(ctx)
-	x := rc.begin(ctx, name, argsOf(k), tag)
+	x := rc.begin(ctx, name, argsOf(k, s), tag)
 	defer rc.done(x)
 	b, ok := rc.behav(k)
 	if !ok {
 		return nil, &toolErr{7}
 	}
-	sleepUS(b.Delay)
+	b = b.with(s)
+	if err := sleepCtx(ctx, b.Delay, b.Ctx); err != nil {
+		return nil, err
+	}
 	if b.Panic {
 		panicAt(b.Depth, toolPanic{k})
 	}
@@ -433,7 +509,8 @@ func (rc *recorder) stream(ctx context.Context, name string, k int, tag string) 
 }
 
 type argT struct {
-	K int `json:"k"`
+	K int    `json:"k"`
+	S string `json:"s,omitempty"`
 }
 
 func rawMarshal(_ context.Context, out interface{}) (string, error) {
@@ -454,49 +531,49 @@ type rawBase struct {
 func (t *rawBase) Info(context.Context) (*schema.ToolInfo, error) {
 	return &schema.ToolInfo{Name: t.name, Desc: "raw " + t.name}, nil
 }
-func (t *rawBase) parse(args string) (int, error) {
+func (t *rawBase) parse(args string) (argT, error) {
 	var a argT
 	if err := json.Unmarshal([]byte(args), &a); err != nil {
-		return 0, err
+		return a, err
 	}
-	return a.K, nil
+	return a, nil
 }
 
 type rawInv struct{ rawBase }
 
 func (t *rawInv) InvokableRun(ctx context.Context, args string, opts ...tool.Option) (string, error) {
-	k, err := t.parse(args)
+	a, err := t.parse(args)
 	if err != nil {
 		return "", err
 	}
-	return t.rc.invoke(ctx, t.name, k, tagOf(t.ot, opts))
+	return t.rc.invoke(ctx, t.name, a.K, a.S, tagOf(t.ot, opts))
 }
 
 type rawStr struct{ rawBase }
 
 func (t *rawStr) StreamableRun(ctx context.Context, args string, opts ...tool.Option) (*schema.StreamReader[string], error) {
-	k, err := t.parse(args)
+	a, err := t.parse(args)
 	if err != nil {
 		return nil, err
 	}
-	return t.rc.stream(ctx, t.name, k, tagOf(t.ot, opts))
+	return t.rc.stream(ctx, t.name, a.K, a.S, tagOf(t.ot, opts))
 }
 
 type rawBoth struct{ rawBase }
 
 func (t *rawBoth) InvokableRun(ctx context.Context, args string, opts ...tool.Option) (string, error) {
-	k, err := t.parse(args)
+	a, err := t.parse(args)
 	if err != nil {
 		return "", err
 	}
-	return t.rc.invoke(ctx, t.name, k, tagOf(t.ot, opts))
+	return t.rc.invoke(ctx, t.name, a.K, a.S, tagOf(t.ot, opts))
 }
 func (t *rawBoth) StreamableRun(ctx context.Context, args string, opts ...tool.Option) (*schema.StreamReader[string], error) {
-	k, err := t.parse(args)
+	a, err := t.parse(args)
 	if err != nil {
 		return nil, err
 	}
-	return t.rc.stream(ctx, t.name, k, tagOf(t.ot, opts))
+	return t.rc.stream(ctx, t.name, a.K, a.S, tagOf(t.ot, opts))
 }
 
 // a tool that is both, assembled from the two utils tools
@@ -528,15 +605,51 @@ func buildTool(rc *recorder, d ToolDef) (tool.BaseTool, error) {
 		return &rawBase{name: name, rc: rc}, nil
 	}
 	ot := d.optType()
-	invFn := func(ctx context.Context, in argT) (string, error) { return rc.invoke(ctx, name, in.K, "") }
+	invFn := func(ctx context.Context, in argT) (string, error) { return rc.invoke(ctx, name, in.K, in.S, "") }
 	strFn := func(ctx context.Context, in argT) (*schema.StreamReader[string], error) {
-		return rc.stream(ctx, name, in.K, "")
+		return rc.stream(ctx, name, in.K, in.S, "")
 	}
 	invOptFn := func(ctx context.Context, in argT, opts ...tool.Option) (string, error) {
-		return rc.invoke(ctx, name, in.K, tagOf(ot, opts))
+		return rc.invoke(ctx, name, in.K, in.S, tagOf(ot, opts))
 	}
 	strOptFn := func(ctx context.Context, in argT, opts ...tool.Option) (*schema.StreamReader[string], error) {
-		return rc.stream(ctx, name, in.K, tagOf(ot, opts))
+		return rc.stream(ctx, name, in.K, in.S, tagOf(ot, opts))
+	}
+	// the usual style: the argument type is a pointer to a struct (utils builds the value to decode into by reflection)
+	invPtrFn := func(ctx context.Context, in *argT) (string, error) {
+		if in == nil {
+			return "", errors.New("harness: nil arguments")
+		}
+		return rc.invoke(ctx, name, in.K, in.S, "")
+	}
+	strPtrFn := func(ctx context.Context, in *argT) (*schema.StreamReader[string], error) {
+		if in == nil {
+			return nil, errors.New("harness: nil arguments")
+		}
+		return rc.stream(ctx, name, in.K, in.S, "")
+	}
+	// ... or a map
+	mapArgs := func(in map[string]any) (int, string, error) {
+		k, ok := in["k"].(float64)
+		if !ok {
+			return 0, "", fmt.Errorf("harness: argument k is %T", in["k"])
+		}
+		s, _ := in["s"].(string)
+		return int(k), s, nil
+	}
+	invMapFn := func(ctx context.Context, in map[string]any) (string, error) {
+		k, s, err := mapArgs(in)
+		if err != nil {
+			return "", err
+		}
+		return rc.invoke(ctx, name, k, s, "")
+	}
+	strMapFn := func(ctx context.Context, in map[string]any) (*schema.StreamReader[string], error) {
+		k, s, err := mapArgs(in)
+		if err != nil {
+			return nil, err
+		}
+		return rc.stream(ctx, name, k, s, "")
 	}
 	var mk []utils.Option
 	if !d.jsonOut() {
@@ -558,6 +671,15 @@ func buildTool(rc *recorder, d ToolDef) (tool.BaseTool, error) {
 		if d.Via == "infer" || d.Via == "inferjson" {
 			return utils.InferTool[argT, string](name, "inferred "+name, invFn, mk...)
 		}
+		if d.Via == "inferptr" {
+			return utils.InferTool[*argT, string](name, "inferred (pointer arguments) "+name, invPtrFn, mk...)
+		}
+		if d.Via == "newptr" {
+			return utils.NewTool[*argT, string](&schema.ToolInfo{Name: name, Desc: "new (pointer arguments) " + name}, invPtrFn, mk...), nil
+		}
+		if d.Via == "newmap" {
+			return utils.NewTool[map[string]any, string](&schema.ToolInfo{Name: name, Desc: "new (map arguments) " + name}, invMapFn, mk...), nil
+		}
 		return utils.NewTool[argT, string](&schema.ToolInfo{Name: name, Desc: "new " + name}, invFn, mk...), nil
 	}
 	mkStr := func() (tool.StreamableTool, error) {
@@ -566,6 +688,15 @@ func buildTool(rc *recorder, d ToolDef) (tool.BaseTool, error) {
 		}
 		if d.Via == "infer" || d.Via == "inferjson" {
 			return utils.InferStreamTool[argT, string](name, "inferred "+name, strFn, mk...)
+		}
+		if d.Via == "inferptr" {
+			return utils.InferStreamTool[*argT, string](name, "inferred (pointer arguments) "+name, strPtrFn, mk...)
+		}
+		if d.Via == "newptr" {
+			return utils.NewStreamTool[*argT, string](&schema.ToolInfo{Name: name, Desc: "new (pointer arguments) " + name}, strPtrFn, mk...), nil
+		}
+		if d.Via == "newmap" {
+			return utils.NewStreamTool[map[string]any, string](&schema.ToolInfo{Name: name, Desc: "new (map arguments) " + name}, strMapFn, mk...), nil
 		}
 		return utils.NewStreamTool[argT, string](&schema.ToolInfo{Name: name, Desc: "new " + name}, strFn, mk...), nil
 	}
@@ -645,7 +776,7 @@ func (c *Case) message() *schema.Message {
 	for i, cl := range c.Calls {
 		idx := i
 		m.ToolCalls = append(m.ToolCalls, schema.ToolCall{Index: &idx, ID: cl.ID, Type: "function",
-			Function: schema.FunctionCall{Name: cl.Name, Arguments: argsOf(cl.K)}})
+			Function: schema.FunctionCall{Name: cl.Name, Arguments: cl.args()}})
 	}
 	return m
 }
@@ -666,6 +797,7 @@ type Chunk struct {
 type RunObs struct {
 	Mode   string  `json:"mode"`  // invoke | stream | concat
 	Host   string  `json:"host"`  // standalone | graph
+	Entry  string  `json:"entry,omitempty"` // graph-hosted: "" = Invoke / Stream, collect = Collect (mode concat: the graph runs in stream mode and concatenates its output itself), transform = Transform; the message arrives as a stream
 	Class  string  `json:"class"` // msgs | err | panic | chunks | hang | setup
 	Msgs   []*Msg  `json:"msgs,omitempty"`
 	Err    int     `json:"err,omitempty"`
@@ -810,7 +942,7 @@ func derivePi(c *Case, completed []xcall) []int {
 	var pi []int
 	for _, x := range completed {
 		for i, cl := range c.Calls {
-			if !used[i] && cl.Name == x.Name && argsOf(cl.K) == x.Args && cl.ID == x.ID {
+			if !used[i] && cl.Name == x.Name && cl.args() == x.Args && cl.ID == x.ID {
 				used[i] = true
 				pi = append(pi, i)
 				break
@@ -949,12 +1081,30 @@ func (c *Case) peerCase() *Case {
 	if n == 1 && p.Calls[0].K >= 0 {
 		p.Calls[0].K = (p.Calls[0].K + 1) % len(c.Behavs)
 	}
+	// ... and its own tool options (the same option sequence, every tag marked): what one call is given
+	// must not show in the other
+	if seq := c.optSeq(); len(seq) > 0 {
+		p.CallTools, p.ToolOpts = nil, nil
+		p.OptSeq = make([]NodeOpt, len(seq))
+		for i, o := range seq {
+			p.OptSeq[i] = o
+			if !o.isList() {
+				p.OptSeq[i].Tags = make([]string, len(o.Tags))
+				for j, t := range o.Tags {
+					p.OptSeq[i].Tags[j] = t + "'"
+				}
+			}
+		}
+	}
 	return &p
 }
 
 // host: standalone | graph | shared (standalone, with a second call running concurrently on the same node)
-func runOne(c *Case, mode, host string) (o RunObs, peer *RunObs, pc *Case) {
+func runOne(c *Case, mode, host string, entry ...string) (o RunObs, peer *RunObs, pc *Case) {
 	o.Mode, o.Host = mode, host
+	if len(entry) > 0 {
+		o.Entry = entry[0]
+	}
 	rc := &recorder{c: c}
 	ctx := context.Background()
 	tn, err := buildNode(rc)
@@ -985,7 +1135,7 @@ func runOne(c *Case, mode, host string) (o RunObs, peer *RunObs, pc *Case) {
 		g := compose.NewGraph[*schema.Message, []*schema.Message]()
 		last := "tools"
 		err = g.AddToolsNode("tools", tn)
-		if err == nil && mode == "concat" {
+		if err == nil && mode == "concat" && o.Entry == "" {
 			last = "after"
 			err = g.AddLambdaNode("after", compose.InvokableLambda(func(_ context.Context, in []*schema.Message) ([]*schema.Message, error) {
 				return in, nil
@@ -1011,6 +1161,20 @@ func runOne(c *Case, mode, host string) (o RunObs, peer *RunObs, pc *Case) {
 		gopts := c.graphOptions(nopts)
 		inv = func() ([]*schema.Message, error) { return r.Invoke(ctx, msg, gopts...) }
 		str = func() (*schema.StreamReader[[]*schema.Message], error) { return r.Stream(ctx, msg, gopts...) }
+		if o.Entry != "" { // the stream-input entries: the graph concatenates the chunks in front of the tools node
+			str = func() (*schema.StreamReader[[]*schema.Message], error) {
+				return r.Transform(ctx, schema.StreamReaderFromArray(c.messageChunks()), gopts...)
+			}
+			if o.Entry == "collect" { // the graph runs in stream mode and concatenates its output: one list, or the error
+				str = func() (*schema.StreamReader[[]*schema.Message], error) {
+					out, err := r.Collect(ctx, schema.StreamReaderFromArray(c.messageChunks()), gopts...)
+					if err != nil {
+						return nil, err
+					}
+					return schema.StreamReaderFromArray([][]*schema.Message{out}), nil
+				}
+			}
+		}
 	}
 
 	var peerDone chan struct{}
@@ -1021,11 +1185,16 @@ func runOne(c *Case, mode, host string) (o RunObs, peer *RunObs, pc *Case) {
 		pctx := context.WithValue(ctx, peerKey{}, true)
 		pmsg := pc.message()
 		peerDone = make(chan struct{})
+		pnopts, perr := pc.nodeOptions(rc)
+		if perr != nil {
+			o.Class, o.ErrMsg = "setup", short(perr.Error())
+			return
+		}
 		go func() {
 			defer close(peerDone)
 			observe(peer, mode, len(pc.Calls),
-				func() ([]*schema.Message, error) { return tn.Invoke(pctx, pmsg, nopts...) },
-				func() (*schema.StreamReader[[]*schema.Message], error) { return tn.Stream(pctx, pmsg, nopts...) })
+				func() ([]*schema.Message, error) { return tn.Invoke(pctx, pmsg, pnopts...) },
+				func() (*schema.StreamReader[[]*schema.Message], error) { return tn.Stream(pctx, pmsg, pnopts...) })
 		}()
 	}
 
@@ -1209,19 +1378,31 @@ func (c *Case) coq(runs []string) string {
 			nopts = append(nopts, lib.CoqApp("NOpts", lib.CoqList(tags)))
 		}
 	}
-	tbl := make([]string, len(c.Behavs))
-	for i, b := range c.Behavs {
+	// the tools as functions of the argument string: one row per behaviour (arguments {"k":K}) and one per
+	// distinct argument string with the optional field that a call of the case carries
+	var tbl []string
+	row := func(args string, b Behav) {
 		failat := "None"
 		if b.FailAt >= 0 {
 			failat = lib.CoqSome(lib.CoqNat(b.FailAt))
 		}
-		tbl[i] = lib.CoqApp("B", S(argsOf(i)),
-			lib.CoqApp("mkB", sList(b.Chunks), lib.CoqN(uint64(b.Fail)), failat, lib.CoqBool(b.Panic), lib.CoqBool(b.Bare)))
+		tbl = append(tbl, lib.CoqApp("B", S(args),
+			lib.CoqApp("mkB", sList(b.Chunks), lib.CoqN(uint64(b.Fail)), failat, lib.CoqBool(b.Panic), lib.CoqBool(b.Bare))))
+	}
+	for i, b := range c.Behavs {
+		row(argsOf(i, ""), b)
+	}
+	seenArgs := map[string]bool{}
+	for _, cl := range c.Calls {
+		if cl.K >= 0 && cl.S != "" && !seenArgs[cl.args()] {
+			seenArgs[cl.args()] = true
+			row(cl.args(), c.Behavs[cl.K].with(cl.S))
+		}
 	}
 	h := map[string]string{"": "HNone", "ok": "HOk", "err": fmt.Sprintf("(HErr %d%%N)", handlerErrCode), "panic": "HPanic"}[c.Handler]
 	calls := make([]string, len(c.Calls))
 	for i, cl := range c.Calls {
-		calls[i] = lib.CoqApp("mkCall", S(cl.ID), S(cl.Name), S(argsOf(cl.K)))
+		calls[i] = lib.CoqApp("mkCall", S(cl.ID), S(cl.Name), S(cl.args()))
 	}
 	return lib.CoqApp("mkCase", tdefs(c.Tools), lib.CoqList(nopts), lib.CoqList(tbl), h, lib.CoqBool(c.RoleOK),
 		lib.CoqList(calls), lib.CoqList(runs))
@@ -1292,7 +1473,7 @@ func (c *Case) spec(streamed bool) spec {
 				s.errs = append(s.errs, 4)
 				callFails(i, 4)
 			}
-			s.msgs = append(s.msgs, &Msg{"unk:" + cl.Name + ":" + argsOf(cl.K), cl.ID})
+			s.msgs = append(s.msgs, &Msg{"unk:" + cl.Name + ":" + cl.args(), cl.ID})
 			s.tags = append(s.tags, "")
 			continue
 		}
@@ -1304,7 +1485,7 @@ func (c *Case) spec(streamed bool) spec {
 			s.tags = append(s.tags, tag)
 			continue
 		}
-		b := c.Behavs[cl.K]
+		b := c.Behavs[cl.K].with(cl.S)
 		if b.Panic {
 			s.panics = true
 			s.errs = append(s.errs, 4)
@@ -1365,6 +1546,9 @@ func msgsEqual(a, b []*Msg) bool {
 func (c *Case) oracle(o *RunObs) (string, string) {
 	s := c.spec(o.Mode != "invoke")
 	tag := o.Mode + "/" + o.Host
+	if o.Entry != "" {
+		tag += "(" + o.Entry + fmt.Sprintf(", the message arrives in %d chunks)", len(c.messageChunks()))
+	}
 	switch o.Class {
 	case "hang":
 		return tag + ": the call did not return within 10s", "hang"
@@ -1392,7 +1576,7 @@ func (c *Case) oracle(o *RunObs) (string, string) {
 	for _, x := range o.Exec {
 		found := false
 		for i, cl := range c.Calls {
-			if cl.Name == x.Name && argsOf(cl.K) == x.Args && cl.ID == x.ID && s.tags[i] == x.Tag {
+			if cl.Name == x.Name && cl.args() == x.Args && cl.ID == x.ID && s.tags[i] == x.Tag {
 				found = true
 			}
 		}
@@ -1486,7 +1670,7 @@ func js(x any) string { b, _ := json.Marshal(x); return string(b) }
 // ---------------------------------------------------------------- generator
 
 var toolNames = []string{"ta", "tb", "tc", "td"}
-var vias = []string{"infer", "new", "raw", "inferopt", "raw", "inferopt", "raw2", "inferopt2", "newum", "inferjson"}
+var vias = []string{"infer", "new", "raw", "inferopt", "raw", "inferopt", "raw2", "inferopt2", "newum", "inferjson", "inferptr", "inferptr", "newptr", "newmap"}
 
 func genTool(r *lib.Rng, name string) ToolDef {
 	d := ToolDef{Name: name, Kind: r.Pick([]string{"inv", "str", "both"}), Via: r.Pick(vias)}
@@ -1507,10 +1691,11 @@ func sameSeesVia(r *lib.Rng, via string) string {
 	case "inferjson":
 		return via
 	}
-	return r.Pick([]string{"infer", "new", "newum"})
+	return r.Pick([]string{"infer", "new", "newum", "inferptr", "newptr", "newmap"})
 }
 
-var unknownNames = []string{"zz", "yy"}
+var unknownNames = []string{"zz", "yy", "TA", "tb ", "t"} // among them near misses of the tool names (case, trailing blank, prefix)
+var optFieldPool = []string{"+s1", "+s2", "!", "+s1"}
 var chunkPool = []string{"a", "b", "", "xy", "q ", "0", "W", "hello", ""}
 
 func genCase(r *lib.Rng, tier string) *Case {
@@ -1624,6 +1809,7 @@ func genCase(r *lib.Rng, tier string) *Case {
 			b.Delay = r.Intn(800)
 		}
 		b.ChunkDelay = []int{0, 0, 50, 200}[r.Intn(4)]
+		b.Ctx = r.Chance(1, 2)
 		if faults {
 			switch {
 			case r.Chance(1, 5):
@@ -1644,8 +1830,12 @@ func genCase(r *lib.Rng, tier string) *Case {
 	}
 	unknown := r.Chance(1, 6)
 	dupIDs := r.Chance(1, 15)
+	optField := r.Chance(1, 3) // some calls carry the optional argument field
 	for i := 0; i < n; i++ {
 		cl := Call{ID: fmt.Sprintf("c%d", i), Name: names[r.Intn(len(names))], K: r.Intn(nb)}
+		if optField && r.Chance(1, 2) {
+			cl.S = r.Pick(optFieldPool)
+		}
 		if unknown && r.Chance(1, 3) {
 			cl.Name = r.Pick(unknownNames)
 		}
@@ -1668,6 +1858,9 @@ func genCase(r *lib.Rng, tier string) *Case {
 	}
 	if r.Chance(1, 50) {
 		c.RoleOK = false
+	}
+	if r.Chance(1, 3) {
+		c.InputSplit = r.Range(1, 3)
 	}
 	if r.Chance(1, 50) {
 		c.Calls = nil
@@ -1697,6 +1890,9 @@ func (engine) Decode(raw json.RawMessage) (any, error) {
 			return nil, fmt.Errorf("call refers to behaviour %d of %d", cl.K, len(c.Behavs))
 		}
 	}
+	if c.InputSplit < 0 || c.InputSplit > 3 {
+		return nil, fmt.Errorf("input_split %d", c.InputSplit)
+	}
 	lists := [][]ToolDef{c.Tools}
 	for _, o := range c.optSeq() {
 		if o.List != nil {
@@ -1713,8 +1909,8 @@ func (engine) Decode(raw json.RawMessage) (any, error) {
 	return c, nil
 }
 
-var runPlan = [][2]string{{"invoke", "standalone"}, {"stream", "standalone"}, {"invoke", "graph"}, {"stream", "graph"}, {"concat", "graph"},
-	{"invoke", "shared"}, {"stream", "shared"}}
+var runPlan = [][3]string{{"invoke", "standalone"}, {"stream", "standalone"}, {"invoke", "graph"}, {"stream", "graph"}, {"concat", "graph"},
+	{"invoke", "shared"}, {"stream", "shared"}, {"concat", "graph", "collect"}, {"stream", "graph", "transform"}}
 
 // failures observed in an earlier execution of the same case: a schedule-dependent failure (a
 // result published after the waiter was released, ...) need not show in every execution, and
@@ -1827,8 +2023,11 @@ func (engine) runCase(c *Case) lib.Result {
 			sendable = false
 			continue
 		}
-		at(p[0] + "/" + p[1])
-		o, peer, pc := runOne(c, p[0], p[1])
+		if p[2] != "" && c.InputSplit == 0 {
+			continue
+		}
+		at(p[0] + "/" + p[1] + p[2])
+		o, peer, pc := runOne(c, p[0], p[1], p[2])
 		obs = append(obs, o)
 		if t := o.coq(); t != "" {
 			terms = append(terms, t)
@@ -1923,8 +2122,35 @@ func (engine) runCase(c *Case) lib.Result {
 	if !c.RoleOK {
 		res.Tags = append(res.Tags, "malformed:role")
 	}
+	res.Tags = append(res.Tags, "entries:collect+transform:"+[]string{"not-run", "one-chunk", "calls-over-two-chunks", "arguments-cut-in-two"}[c.InputSplit])
 	if malformed > 0 {
 		res.Tags = append(res.Tags, "malformed:arguments")
+	}
+	withS, withoutS, ctxTools := map[string]bool{}, map[string]bool{}, false
+	for _, cl := range c.Calls {
+		if c.kindOf(cl.Name) == "" || cl.K < 0 {
+			continue
+		}
+		if cl.S != "" {
+			withS[cl.Name] = true
+		} else {
+			withoutS[cl.Name] = true
+		}
+		if c.Behavs[cl.K].Ctx && c.Behavs[cl.K].Delay > 0 {
+			ctxTools = true
+		}
+	}
+	if len(withS) > 0 {
+		res.Tags = append(res.Tags, "args:optional-field")
+		for n := range withS {
+			if withoutS[n] {
+				res.Tags = append(res.Tags, "args:one-tool-called-with-and-without-optional-field")
+				break
+			}
+		}
+	}
+	if ctxTools {
+		res.Tags = append(res.Tags, "tool:honours-ctx-while-delayed")
 	}
 	if anyBad(c.Tools) {
 		res.Tags = append(res.Tags, "malformed:configured-tool")
@@ -1938,7 +2164,7 @@ func (engine) runCase(c *Case) lib.Result {
 		if o.Class == "chunks" && o.Fin != nil {
 			cls = "chunks+erritem"
 		}
-		res.Tags = append(res.Tags, "outcome:"+o.Mode+"/"+o.Host+":"+cls)
+		res.Tags = append(res.Tags, "outcome:"+o.Mode+"/"+o.Host+o.Entry+":"+cls)
 		if !sort.IntsAreSorted(o.Pi) {
 			ooo = true
 		}
